@@ -346,3 +346,103 @@ def _py_number(name, exact_type=None):
 
 Api.f_PyNumber_Index = _py_number("PyNumber_Index")
 Api.f_PyNumber_Long = _py_number("PyNumber_Long", "PyLong_Type")
+
+
+def _parse_tuple(self, a, st, k):
+    """PyArg_ParseTuple(args, fmt, &targets...): on success every target is written -- 'O': a borrowed, non-NULL
+    reference; 'i' / 'I' / 'n': an integer; returns 1.  On failure returns 0 with TypeError set; the targets converted
+    before the failing one have already been written (the C-API gives no rollback)."""
+    fmt = a[1].s if isinstance(a[1], StrLit) else None
+    if fmt is None:
+        raise Unsupported("PyArg_ParseTuple with a non-literal format")
+    codes = [c for c in fmt if c in "OiInlk"]
+    optional_from = None
+    seen = 0
+    for ch in fmt:
+        if ch == "|":
+            optional_from = seen
+        elif ch in "OiInlk":
+            seen += 1
+    targets = a[2:]
+    if len(targets) != len(codes):
+        raise Unsupported("PyArg_ParseTuple format/targets mismatch")
+
+    def write(st2, upto, optional_absent=False):
+        for code, t in list(zip(codes, targets))[:upto]:
+            if optional_absent:
+                continue
+            if code == "O":
+                v = self.cx.fresh("parsed", Obj)
+                st2 = st2.assume(v != NULL)
+            elif code == "I":
+                v = self.cx.fresh("parsedu", BV32)
+            else:
+                v = self.cx.fresh("parsedi", INT)
+            if not isinstance(t, Ptr):
+                raise Unsupported("PyArg_ParseTuple target")
+            if t.kind == "local":
+                st2 = st2.set(t.a, v)
+            else:
+                arr = self.ex.field_array(st2, t.b)
+                st2 = st2.with_mem(t.b, z3.Store(arr, t.a, v)).log(("parse-store", t.b, t.a, v))
+        return st2
+    out = []
+    out += k(z3.IntVal(1), write(st, len(codes)))
+    if optional_from is not None:
+        out += k(z3.IntVal(1), write(st, optional_from))
+    has_field_targets = any(isinstance(t, Ptr) and t.kind == "field" for t in targets)
+    fails = range(len(codes)) if has_field_targets else [0]
+    for upto in fails:
+        out += k(z3.IntVal(0), write(st, upto).with_exc(EXC["TypeError"]).gset("parse_failed_after", upto))
+    return out
+
+
+Api.f_PyArg_ParseTuple = _parse_tuple
+
+
+def _tuple_new(self, a, st, k):
+    r, st2 = self.fresh_obj("newtuple", st)
+    return k(r, st2.assume(is_exact(r, "PyTuple_Type"), is_inst(r, "PyTuple_Type"), tuple_len(r) == as_int(a[0])))     # A-ALLOC
+
+
+def _tuple_set_item(self, a, st, k):
+    """steals the reference to the item"""
+    t, i, v = a[0], as_int(a[1]), a[2]
+    st = self.nonnull(st, t, "PyTuple_SET_ITEM")
+    st = self.cx.require(st, z3.And(0 <= i, i < tuple_len(t)), "bounds:PyTuple_SET_ITEM", witness={"index": i})
+    built = dict(st.ghost.get("built", {}))
+    built[(t.get_id(), z3.simplify(i).as_long() if z3.is_int_value(z3.simplify(i)) else str(i))] = v
+    st = st.gset("built", built)
+    if st.own is not None:
+        st = st.with_own(z3.If(v != NULL, z3.Store(st.own, v, st.own[v] - 1), st.own))
+    return k(None, st)
+
+
+def _get_value_ok(self, a, st, k):
+    return None
+
+
+Api.f_PyTuple_New = _tuple_new
+Api.f_PyTuple_SET_ITEM = _tuple_set_item
+
+
+def _type_generic_new(self, a, st, k):
+    """A-ALLOC: allocation succeeds; the new object's fields are zero-initialised (tp_alloc)"""
+    r, st2 = self.fresh_obj("newobj", st)
+    for f, srt in FIELD_SORTS.items():
+        arr = self.ex.field_array(st2, f)
+        zero = NULL if srt == Obj else (z3.BitVecVal(0, 32) if srt == BV32 else z3.IntVal(0))
+        st2 = st2.with_mem(f, z3.Store(arr, r, zero))
+    return k(r, st2.gset("fresh_object", r))
+
+
+Api.f_PyType_GenericNew = _type_generic_new
+Api.f_PyType_GenericAlloc = _type_generic_new
+
+
+def _dict_size(self, a, st, k):
+    n = self.cx.fresh("dictsize", INT)
+    return k(n, st.assume(n >= 0))
+
+
+Api.f_PyDict_Size = _dict_size
